@@ -418,12 +418,13 @@ func Precedes(a, b ssa.Instruction) bool {
 	if a.Parent() != b.Parent() && len(newHelpers) > 0 {
 		// one of them sits in a transparent helper of the other's function: decide at the call site(s)
 		if sites := liftTo(a, b.Parent(), 0); sites != nil {
+			// a executes at each of these call sites: one that dominates b is enough
 			for _, s := range sites {
-				if !Precedes(s, b) {
-					return false
+				if Precedes(s, b) {
+					return true
 				}
 			}
-			return true
+			return false
 		}
 		if sites := liftTo(b, a.Parent(), 0); sites != nil {
 			for _, s := range sites {
@@ -438,11 +439,16 @@ func Precedes(a, b ssa.Instruction) bool {
 		if oa == ob && oa != nil {
 			sa, sb := liftTo(a, oa, 0), liftTo(b, ob, 0)
 			if sa != nil && sb != nil {
-				for _, x := range sa {
-					for _, y := range sb {
-						if !Precedes(x, y) {
-							return false
+				// every execution of b (site y) is preceded by some execution of a (site x)
+				for _, y := range sb {
+					some := false
+					for _, x := range sa {
+						if Precedes(x, y) {
+							some = true
 						}
+					}
+					if !some {
+						return false
 					}
 				}
 				return true
